@@ -80,33 +80,45 @@ func (a *fieldAggregator) ResultSet() (startTime int64, it series.FieldIterator)
 func (a *fieldAggregator) Aggregate(it series.FieldIterator) {
 	for it.HasNext() {
 		pIt := it.Next()
+		// each primitive series of a partial result carries its aggregate type,
+		// it is merged into the series of the same aggregate type only.
+		aggType := pIt.AggType()
 		for pIt.HasNext() {
 			slot, value := pIt.Next()
-			a.AggregateBySlot(slot, value)
+			for idx := range a.aggTypes {
+				if a.aggTypes[idx] == aggType {
+					a.aggregateBySlot(idx, slot, value)
+				}
+			}
 		}
 	}
 }
 
 // AggregateBySlot aggregates the field series into current aggregator
 func (a *fieldAggregator) AggregateBySlot(slot int, value float64) {
+	for idx := range a.aggTypes {
+		a.aggregateBySlot(idx, slot, value)
+	}
+}
+
+// aggregateBySlot aggregates the value into the series of one aggregate type.
+func (a *fieldAggregator) aggregateBySlot(idx, slot int, value float64) {
 	// drop inf value
 	if math.IsInf(value, 1) {
 		return
 	}
 	pos := slot - a.start
-	for idx, aggType := range a.aggTypes {
-		values := a.fieldSeriesList[idx]
-		if values == nil {
-			values = collections.NewFloatArray(a.end - a.start + 1)
-			values.SetValue(pos, value)
-			a.fieldSeriesList[idx] = values
+	values := a.fieldSeriesList[idx]
+	if values == nil {
+		values = collections.NewFloatArray(a.end - a.start + 1)
+		values.SetValue(pos, value)
+		a.fieldSeriesList[idx] = values
+	} else {
+		// slot too large for last family
+		if values.HasValue(pos) {
+			values.SetValue(pos, a.aggTypes[idx].Aggregate(values.GetValue(pos), value))
 		} else {
-			// slot too large for last family
-			if values.HasValue(pos) {
-				values.SetValue(pos, aggType.Aggregate(values.GetValue(pos), value))
-			} else {
-				values.SetValue(pos, value)
-			}
+			values.SetValue(pos, value)
 		}
 	}
 }
